@@ -207,7 +207,7 @@ class DiffXWriter(object):
                                   mimetype=mimetype)
 
     def write_meta(self, metadata, encoding=None,
-                   meta_format=MetaFormat.JSON):
+                   meta_format=MetaFormat.JSON, line_endings=None):
         """Write a new meta section for DiffX, a change, or a file.
 
         If called before :py:meth:`new_change`, this will write a top-level
@@ -235,6 +235,13 @@ class DiffXWriter(object):
 
                 Valid values are in :py:class:`~pydiffx.options.MetaFormat`.
 
+            line_endings (unicode, optional):
+                The line endings to use for the serialized metadata. This
+                can be "dos" or "unix".
+
+                If not provided, UNIX line endings are used and no
+                ``line_endings`` option is written to the header.
+
         Raises:
             pydiffx.errors.DiffXContentError:
                 The metadata was empty or was an invalid type.
@@ -258,19 +265,28 @@ class DiffXWriter(object):
                 value=meta_format,
                 choices=MetaFormat.VALID_VALUES)
 
-        # NOTE: We're not bothering to write line_endings= here. It's not
-        #       important at all for JSON metadata, and isn't a helpful
-        #       parser aid. This may need to be revisited in the future if
-        #       a different metadata format is ever provided.
+        # NOTE: We're not bothering to write line_endings= here unless the
+        #       caller explicitly asked for it. It's not important at all
+        #       for JSON metadata, and isn't a helpful parser aid. This may
+        #       need to be revisited in the future if a different metadata
+        #       format is ever provided.
+        content = json.dumps(metadata,
+                             indent=4,
+                             separators=(',', ': '),
+                             sort_keys=True)
+
+        if line_endings == LineEndings.DOS:
+            # Newlines within JSON strings are always escaped, so these
+            # are only the ones separating lines.
+            content = content.replace('\n', '\r\n')
+
         self._new_content_section(
             section_name='meta',
-            content=json.dumps(metadata,
-                               indent=4,
-                               separators=(',', ': '),
-                               sort_keys=True),
+            content=content,
             encoding=encoding,
             format=meta_format,
-            write_line_endings_option=False)
+            line_endings=line_endings,
+            write_line_endings_option=line_endings is not None)
 
     def write_diff(self, content, diff_type=None, encoding=None,
                    line_endings=None):
